@@ -396,6 +396,8 @@ class ClassDiagram:
         """
         # Rebuild a fresh diagram from the same classes to avoid mutating this instance
         result = copy(self)
+        # The copy is shallow, give it a graph of its own so that removing edges below leaves this instance intact
+        result._dependency_graph = self._dependency_graph.copy()
         # Convenience locals
         g = result._dependency_graph
 
